@@ -120,7 +120,7 @@ class G16:
                 fields.append({"name": n, "ty": self.type(w, r.randint(0, 2), max_cls=ci),
                                "required": kind != "td" or r.random() < 0.7})
             c = {"kind": kind, "fields": fields}
-            if kind != "td" and r.random() < 0.25:
+            if kind != "td" and r.random() < 0.3:
                 c["strann"] = True     # annotations are strings (`from __future__ import annotations`)
             w["classes"].append(c)
         return w
@@ -676,6 +676,7 @@ OVR_KEYS = {"Set": collections.abc.Set, "MutableSet": collections.abc.MutableSet
             "Mapping": collections.abc.Mapping, "MutableMapping": collections.abc.MutableMapping, "dict": dict,
             "Counter": collections.Counter}
 OVR_MAP_KEYS = ("Mapping", "MutableMapping", "dict", "Counter")
+OVR_SET_KEYS = ("Set", "MutableSet", "FrozenSet", "set", "typing.FrozenSet", "typing.Set", "typing.AbstractSet")
 OVR_TARGETS = {"list": list, "tuple": tuple, "sorted": _sorted_list, "dict": dict, "sdict": _sorted_dict}
 
 
@@ -690,7 +691,12 @@ def gen_options(rng):
     else:
         ovr = []
         for key in rng.sample(sorted(OVR_KEYS), rng.randint(1, 3)):
-            tgt = rng.choice(["dict", "sdict"]) if key in OVR_MAP_KEYS else rng.choice(["list", "tuple", "sorted"])
+            if key in OVR_MAP_KEYS:
+                tgt = rng.choice(["dict", "sdict"])
+            elif key in OVR_SET_KEYS:
+                tgt = rng.choice(["list", "tuple", "sorted"])      # (a deterministic order is a typical reason to override sets)
+            else:
+                tgt = rng.choice(["list", "tuple"])
             ovr.append([key, tgt])
     return {"omit": rng.random() < 0.3, "pac": rng.random() < 0.3, "ovr": ovr}
 
@@ -722,7 +728,7 @@ def make_conv(mod, cfg, hooks):
     return conv
 
 
-def count_float_leaves(w, t, o):
+def count_float_leaves(w, t, o, omit=False):
     """float-typed leaf positions of x (each must see the user hook exactly once per direction)"""
     t = un_nt(t)     # hooks registered for a class apply to its NewTypes
     if t == "float":
@@ -732,22 +738,24 @@ def count_float_leaves(w, t, o):
     k = t[0]
     tag = o[0]
     if k == "opt":
-        return 0 if tag == "N" else count_float_leaves(w, t[1], o)
+        return 0 if tag == "N" else count_float_leaves(w, t[1], o, omit)
     if k == "sunion":
-        return count_float_leaves(w, member_of(w, t, o), o)
+        return count_float_leaves(w, member_of(w, t, o), o, omit)
     if k in SEQ_KINDS + SET_KINDS:
-        return sum(count_float_leaves(w, t[1], x) for x in o[1])
+        return sum(count_float_leaves(w, t[1], x, omit) for x in o[1])
     if k == "tup":
-        return sum(count_float_leaves(w, tt, x) for tt, x in zip(t[1], o[1]))
+        return sum(count_float_leaves(w, tt, x, omit) for tt, x in zip(t[1], o[1]))
     if k in MAP_KINDS:
-        return sum(count_float_leaves(w, t[1], a) + count_float_leaves(w, t[2], b) for a, b in o[1])
+        return sum(count_float_leaves(w, t[1], a, omit) + count_float_leaves(w, t[2], b, omit) for a, b in o[1])
     if k == "counter":
-        return sum(count_float_leaves(w, t[1], a) for a, _ in o[1])
+        return sum(count_float_leaves(w, t[1], a, omit) for a, _ in o[1])
     if k == "cls":
-        return sum(count_float_leaves(w, f["ty"], v) for f, (_, v) in zip(w["classes"][t[1]]["fields"], o[2]))
+        # (omit_if_default: a field equal to its default is not emitted, so its leaves meet no hook)
+        return sum(count_float_leaves(w, f["ty"], v, omit) for f, (_, v) in zip(w["classes"][t[1]]["fields"], o[2])
+                   if not (omit and "dflt" in f and tcanon(w, f["ty"], v, True) == tcanon(w, f["ty"], f["dflt"], True)))
     if k == "td":
         ft = {f["name"]: f["ty"] for f in w["classes"][t[1]]["fields"]}
-        return sum(count_float_leaves(w, ft.get(a[1]), v) for a, v in o[1])
+        return sum(count_float_leaves(w, ft.get(a[1]), v, omit) for a, v in o[1])
     return 0
 
 
@@ -779,7 +787,7 @@ def run_impl(R, fmt, mod, cfg, t, x_abs, xv=None):
     T = R.ty(t)
     if xv is None:
         xv = R.val(x_abs, t)
-    out = {"stage": "done", "hooks": hooks, "x": xv}
+    out = {"stage": "done", "hooks": hooks, "x": xv, "cfg": cfg}
     try:
         out["u"] = conv.unstructure(xv, unstructure_as=T)
     except Exception as e:  # noqa: BLE001
@@ -821,7 +829,7 @@ def hook_oracle(w, t, x_abs, res):
     h = res["hooks"]
     if h is None or res["stage"] != "done" or has_union_float(w, t):
         return None
-    n = count_float_leaves(w, t, x_abs)
+    n = count_float_leaves(w, t, x_abs, bool(res.get("cfg", {}).get("omit")))
     exp_st = n * (1 if "y2exc" in res else 2)
     if h.n_un != 2 * n or h.n_st != exp_st:
         return ("hooks", f"user float hooks not honoured: {n} float leaves, unstructure hook ran {h.n_un}x (expected {2 * n}), "
@@ -998,6 +1006,8 @@ PROVISIONAL = [
      "what": "msgspec converter: a mapping keyed by a plain Enum with str values whose value type needs a cattrs hook keeps the members as keys, and the msgspec encoder refuses them: dumps raises TypeError"},
     {"id": "F42", "property": "C16", "kind": "finding", "signature": "counter-keys-not-unstructured",
      "what": "Counter[K]: mapping_unstructure_factory takes the key type to be the tuple (K,), so keys are never unstructured (also on a plain Converter): json cannot dump Counter[bytes|date|datetime|plain Enum], pyyaml cannot dump Counter[Enum], a user hook for K is skipped when dumping but applied when loading; dict[K, int] with the same entries works"},
+    {"id": "F50", "property": "C16", "kind": "finding", "signature": "msgspec-dataclass-string-annotations",
+     "what": "msgspec converter: msgspec_attrs_unstructure_factory resolves string annotations (PEP 563) of attrs classes only; for a dataclass the pass-through test looks up the hook of the *string* 'float' (identity), so the dataclass is handed to to_builtins: user hooks of its field types are skipped on dump but applied on load, attrs classes with private attributes inside it lose the underscore (F8 again, through string annotations)"},
 ]
 
 
@@ -1178,7 +1188,8 @@ def one_case(chk, drv, R, w, fmt, mod, cfg, t, x, corr_fail, tag="", model=True)
     m = parse_codec(rm) if not rm.startswith("bad") else None
     if rm.startswith("bad"):
         raise lean.InfraError("driver rejected CODEC: " + rm + " :: " + ty_sx(w, t) + " " + terms.obj_sx(x))
-    sort_d = fmt == "yaml"
+    # (dict equality ignores order: yaml's safe_dump sorts keys, and so does a user's sorting mapping override)
+    sort_d = fmt == "yaml" or any(v == "sdict" for _, v in (cfg.get("ovr") or []))
     SORT_CLS[0] = fmt == "msgspec"
     if not model:
         m = None
@@ -1196,6 +1207,10 @@ def one_case(chk, drv, R, w, fmt, mod, cfg, t, x, corr_fail, tag="", model=True)
             raise lean.InfraError("model contradicts theorem C16_roundtrip on " + ty_sx(w, t) + " " + terms.obj_sx(x) + " -> " + rm[:300])
         if impl_ok != m_ok:
             corr_fail.append(("CODEC", case, f"impl stage={res['stage']} model enc={m['enc']} st={str(m_st)[:80]}"))
+        elif m["sup"] != "1" and sort_d and fmt != "yaml":
+            # outside the supported types keys may collapse (finding F18) and the survivor depends on the order of
+            # the entries, which a user's sorting mapping override changes: nothing to compare
+            chk.note("codec-result-not-compared:unsupported-type+sorting-override")
         elif impl_ok and y_abs is not None and tcanon(w, t, y_abs, sort_d) != tcanon(w, t, terms.obj_of_px(m_st[1]), sort_d):
             corr_fail.append(("CODEC", case, "structured results differ: impl=" + terms.canon_sx(y_abs)[:200] + " model=" + str(m_st)[:200]))
         # stage: unstructured form.  The model has no user collection overrides: with a non-empty user mapping the
